@@ -227,7 +227,7 @@ func (b *build) runWorker(s *spec, timeout time.Duration, extraEnv ...string) (*
 	} else {
 		// address-space guard: a runaway allocation of the code under test kills this worker
 		// (and is then isolated as a process crash) instead of the machine
-		cmd = exec.Command("/bin/sh", "-c", "ulimit -v 4000000; exec \"$0\" \"$@\"", b.worker, "-test.run", "^TestWorker$", "-test.timeout", "0", "-test.cpu", "4")
+		cmd = exec.Command("/bin/sh", "-c", "ulimit -d 6000000; exec \"$0\" \"$@\"", b.worker, "-test.run", "^TestWorker$", "-test.timeout", "0", "-test.cpu", "4")
 	}
 	cmd.Env = append(os.Environ(), "VSIM_SPEC="+sp)
 	if b.race {
